@@ -69,6 +69,14 @@ class Impl(impl_system.Impl):
             self.tmp = None
 
     def build(self):
+        """odd cases: one system object serves every export / plot of the case (exports are queries: they
+        leave the system as it is); even cases: a fresh object per command"""
+        if self.variant % 2 == 1 and getattr(self, "_built", None) is not None:
+            return self._built
+        self._built = self._build_fresh()
+        return self._built
+
+    def _build_fresh(self):
         # a system assembled by hand: process ids need not be positions (the environment keeps id 0), and
         # values need not be C-contiguous in memory
         n = len(self.procs)
@@ -182,6 +190,20 @@ class Impl(impl_system.Impl):
             p = PlotlySankeyPlotter(mfa=mfa, slice_dict=dict(self.cfg["slice"]), exclude_processes=list(self.cfg["exclude_procs"]),
                                     exclude_flows=list(self.cfg["exclude_flows"]), flow_color_dict=colors)
             fig = p.plot()
+            # odd cases: the plotter object of the case's first plot is kept and re-used with the current
+            # settings (a plot shows the settings and the system as they are when plot() is called)
+            if self.variant % 2 == 1:
+                prev = getattr(self, "_plotter", None)
+                if prev is not None and prev[0] is mfa:
+                    q = prev[1]
+                    q.slice_dict = dict(self.cfg["slice"])
+                    q.exclude_processes = list(self.cfg["exclude_procs"])
+                    q.exclude_flows = list(self.cfg["exclude_flows"])
+                    q.flow_color_dict = p.flow_color_dict          # as completed (defaults per flow / node) by the
+                    q.node_color_dict = p.node_color_dict          # validators of the fresh plotter
+                    fig = q.plot()
+                else:
+                    self._plotter = (mfa, p)
             sk = fig.data[0]
             links = []
             for s_, t_, v, lab in zip(sk.link.source, sk.link.target, sk.link.value, sk.link.label):
